@@ -200,6 +200,13 @@ func genTransport(g *GenCtx, emit func(head string, gos [][]string)) {
 	for k := 0; k < 4; k++ {
 		emit("obj=t", [][]string{{"s.acc", "h.wm:2001"}, {"c.hs", "c.c"}, {"c.rm"}, {"c.r"}, {"sl:100", "c.rm", "c.rm"}, {"sl:300", "s.c"}})
 	}
+	// one batch: Close is elected while a handshake is under way and then lingers (yclose) until the
+	// handshake has exchanged all its packets; whatever the handshake left behind, every Read after that
+	// Close returns
+	for k := 0; k < linBatch; k++ {
+		emit("obj=t yclose=40", [][]string{{"s.acc"}, {"c.hs"}, {fmt.Sprintf("sl:%d", k%4), "c.c", "c.rm", "c.r", "c.hs"}, {"sl:200", "c.rm"},
+			{"sl:600", "c.c"}, {"sl:600", "s.c"}})
+	}
 	n := 110
 	if g.Thorough() {
 		n = 2500 / g.Parts
